@@ -46,6 +46,9 @@ def make_plan(seed: int, tier: str, opts: dict) -> dict:
         _materialise_defaults(model)
         hist = []
         for _ in range(r.randint(2, 7)):
+            if r.random() < 0.6:
+                # the user looks at phases / infos in between (a read must never make a later change invisible)
+                hist.append(["observe", r.choice([-1] + list(range(len(spec["nodes"])))), None, None])
             if r.random() < 0.5:
                 i = r.randrange(len(spec["nodes"]))
                 per = 1.0 / spec["nodes"][i]["rate"]
@@ -138,6 +141,12 @@ def dist_sig(dd):
 def apply_history(nodes, spec, hist):
     names = [nd["name"] for nd in spec["nodes"]]
     for op in hist:
+        if op[0] == "observe":
+            for j, nme in enumerate(names):
+                if op[1] in (-1, j):
+                    _ = nodes[nme].phase
+                    _ = nodes[nme].info
+            continue
         if op[0] == "node_set_delay":
             nodes[names[op[1]]].set_delay(delay_dist=sp.make_dist(op[2]) if op[2] is not None else None, delay=op[3])
         elif op[0] == "conn_set_delay":
